@@ -136,6 +136,64 @@ theorem contains_imp_intersects (W : World σ κ) (hwf : ∀ s t, W.dt s = some 
   have hmem : ((db.start : ℚ)) ∈ den db := TI.start_mem_den (hwf b db hb)
   exact ⟨db.start, hsub hmem, hmem⟩
 
+/-! ### order-like laws of the space-time gates -/
+
+/-- space-time containment is transitive whenever the spatial relation is, **provided the middle shape is
+    time-bounded** (or one of the outer shapes is timeless): a timeless middle shape is "everywhen" for
+    both questions and transmits nothing about time -/
+theorem contains_trans (W : World σ κ) (hwf : ∀ s t, W.dt s = some t → WF t)
+    (ht : ∀ x y z, W.containsShape x y = true → W.containsShape y z = true → W.containsShape x z = true)
+    (a b c : σ) (hb : W.dt b ≠ none ∨ W.dt a = none ∨ W.dt c = none)
+    (h1 : W.contains a (.inr b) = true) (h2 : W.contains b (.inr c) = true) :
+    W.contains a (.inr c) = true := by
+  rw [contains_iff W hwf] at h1 h2 ⊢
+  refine ⟨ht a b c h1.1 h2.1, fun da dc ha hc => ?_⟩
+  rcases hb with hb | hb | hb
+  · cases hdb : W.dt b with
+    | none => exact absurd hdb hb
+    | some db => exact Set.Subset.trans (h2.2 db dc hdb hc) (h1.2 da db ha hdb)
+  · rw [hb] at ha; cases ha
+  · rw [hb] at hc; cases hc
+
+/-- … and the proviso is needed: with a timeless middle shape both links hold and the conclusion fails -/
+theorem contains_trans_needs_bounded_middle :
+    ∃ (W : World (Fin 3) Unit), (∀ s t, W.dt s = some t → WF t) ∧
+      (∀ x y z, W.containsShape x y = true → W.containsShape y z = true → W.containsShape x z = true) ∧
+      W.contains 0 (.inr 1) = true ∧ W.contains 1 (.inr 2) = true ∧ W.contains 0 (.inr 2) = false := by
+  refine ⟨{ dt := fun s => if s = 0 then some ⟨0, 1⟩ else if s = 1 then none else some ⟨5, 6⟩,
+            containsCoord := fun _ _ => true, containsShape := fun _ _ => true,
+            intersectsShape := fun _ _ => true }, ?_, fun _ _ _ _ _ => rfl, by decide, by decide, by decide⟩
+  intro s t h
+  simp only at h
+  split at h
+  · cases h; decide
+  · split at h
+    · cases h
+    · cases h; decide
+
+/-- a time-bounded shape contains itself in space-time whenever it does in space -/
+theorem contains_self (W : World σ κ) (hwf : ∀ s t, W.dt s = some t → WF t) (a : σ)
+    (h : W.containsShape a a = true) : W.contains a (.inr a) = true := by
+  rw [contains_iff W hwf]
+  refine ⟨h, fun da db ha hb => ?_⟩
+  rw [ha] at hb; cases hb; exact Set.Subset.refl _
+
+/-- an intersecting pair stays intersecting when either time bound is widened (`issubset`) -/
+theorem intersects_mono (W W' : World σ κ) (hwf : ∀ s t, W.dt s = some t → WF t)
+    (hwf' : ∀ s t, W'.dt s = some t → WF t) (a b : σ)
+    (hs : W'.intersectsShape a b = W.intersectsShape a b)
+    (ha : ∀ t', W'.dt a = some t' → ∃ t, W.dt a = some t ∧ t.issubset t' = true)
+    (hb : ∀ t', W'.dt b = some t' → ∃ t, W.dt b = some t ∧ t.issubset t' = true)
+    (h : W.intersects a b = true) : W'.intersects a b = true := by
+  rw [intersects_iff W hwf] at h
+  rw [intersects_iff W' hwf', hs]
+  refine ⟨h.1, fun da' db' ea eb => ?_⟩
+  obtain ⟨da, e1, s1⟩ := ha da' ea
+  obtain ⟨db, e2, s2⟩ := hb db' eb
+  obtain ⟨x, hx1, hx2⟩ := h.2 da db e1 e2
+  exact ⟨x, (TI.issubset_iff da da' (hwf a da e1) (hwf' a da' ea)).mp s1 hx1,
+    (TI.issubset_iff db db' (hwf b db e2) (hwf' b db' eb)).mp s2 hx2⟩
+
 /-! ### `contains_time` / `intersects_time` -/
 
 /-- a shape without time bounds contains / intersects no time -/
